@@ -135,6 +135,18 @@ def run_greenlet_case(case) -> dict:
             return ask([(f"G{i}", g) for i, g in enumerate(gl)] + [("dead", dead), ("unstarted", unstarted), ("main", main)])
 
         results["r"] = outer_ask(case.get("outer_depth", 0))
+    if asker == "sibling":
+        # asked from a greenlet of its own (a non-main greenlet that is no ancestor or descendant of the parked ones)
+        dead = greenlet.greenlet(lambda: None)
+        dead.switch()
+        unstarted = greenlet.greenlet(lambda: None)
+
+        def sib_ask(n):
+            if n > 0:
+                return sib_ask(n - 1)
+            return ask([(f"G{i}", g) for i, g in enumerate(gl)] + [("dead", dead), ("unstarted", unstarted), ("main", main)])
+
+        greenlet.greenlet(lambda: results.__setitem__("r", sib_ask(case.get("outer_depth", 0)))).switch()
     # let everything finish
     for g in reversed(gl):
         try:
@@ -459,7 +471,7 @@ class C15(PropCheck):
         n = 60 if tier == "quick" else 600
         for _ in range(n):
             k = rng.randint(1, 5)
-            out.append({"k": "greenlet", "depths": [rng.choice([0, 0, 1, 2, 3, 6]) for _ in range(k)], "asker": rng.choice(["outside", "inside"]),
+            out.append({"k": "greenlet", "depths": [rng.choice([0, 0, 1, 2, 3, 6]) for _ in range(k)], "asker": rng.choice(["outside", "inside", "sibling"]),
                         "outer_depth": rng.randint(0, 3), "direct": rng.random() < 0.7,
                         "caller_module": rng.choice([None, None, "stackscope_jobs", "stackscopex.dump"])})
         out.append({"k": "otherthread"})
@@ -535,7 +547,7 @@ class C15(PropCheck):
         return json.dumps({k: v for k, v in case.items() if not k.startswith("_")}, sort_keys=True)
 
     def stats(self, cases, reals):
-        d = {"greenlet_cases": 0, "queries": 0, "inside": 0, "outside": 0, "greenback": 0}
+        d = {"greenlet_cases": 0, "queries": 0, "inside": 0, "outside": 0, "sibling": 0, "greenback": 0}
         for c in cases:
             if c["k"] == "greenlet":
                 d["greenlet_cases"] += 1
